@@ -14,7 +14,31 @@ def strLe : Str → Str → Bool
   | _ :: _, [] => false
   | a :: as, b :: bs => if a.toNat < b.toNat then true else if b.toNat < a.toNat then false else strLe as bs
 
-def sortStrs (l : List Str) : List Str := l.mergeSort strLe
+def insertStr (x : Str) : List Str → List Str
+  | [] => [x]
+  | y :: ys => if strLe x y then x :: y :: ys else y :: insertStr x ys
+
+/-- `sort.Strings` (insertion sort: structural, so the kernel can evaluate it; stability is
+    irrelevant because equal strings are indistinguishable). -/
+def sortStrs (l : List Str) : List Str := l.foldr insertStr []
+
+theorem mem_insertStr {x y : Str} {l : List Str} : y ∈ insertStr x l ↔ y = x ∨ y ∈ l := by
+  induction l with
+  | nil => simp [insertStr]
+  | cons z zs ih =>
+    unfold insertStr
+    split
+    · simp
+    · simp [ih]; constructor
+      · rintro (h | h | h) <;> simp [h]
+      · rintro (h | h | h) <;> simp [h]
+
+theorem mem_sortStrs {y : Str} {l : List Str} : y ∈ sortStrs l ↔ y ∈ l := by
+  induction l with
+  | nil => simp [sortStrs]
+  | cons z zs ih =>
+    have : sortStrs (z :: zs) = insertStr z (sortStrs zs) := rfl
+    rw [this, mem_insertStr, ih]; simp
 
 /-- The UTF-8 encoding of a string (kernel-reducible, unlike `String.toUTF8`). -/
 def utf8Bytes (s : Str) : List UInt8 := s.flatMap String.utf8EncodeChar
